@@ -7,5 +7,6 @@ from valib import core, schema
 if os.path.exists(schema.SCHEMA):
     os.unlink(schema.SCHEMA)
 prog = core.load_program()
-schema.write_snapshot(prog.units)
+from valib import macros
+schema.write_snapshot(prog.units, macros.defined_macros(prog))
 print("written", schema.SCHEMA)
